@@ -30,7 +30,7 @@ DEGENERATE = ["flat", "flat_runs", "plateau", "trend_up", "trend_down", "zero_vo
 
 def plan(tier):
     if tier == "thorough":
-        return {"shards": 16, "cases": 60000, "shard_timeout_s": 3000, "shard_budget_s": 1500}
+        return {"shards": 16, "cases": 200000, "shard_timeout_s": 3000, "shard_budget_s": 1500}
     return {"shards": 16, "cases": 10000, "shard_timeout_s": 600, "shard_budget_s": 100}
 
 
